@@ -27,6 +27,10 @@ t_MINGP     == Hdr.mingp
 t_MULT      == Hdr.mult
 t_BLOCKGAS  == Hdr.blockgas
 t_GATEWAY   == Hdr.gateway
+\* go-ethereum London gas schedule for the storage fixture: 59 gas of cheap opcodes around the SSTORE, ColdSloadCostEIP2929,
+\* WarmStorageReadCostEIP2929, SstoreSetGasEIP2200, SstoreResetGasEIP2200 - ColdSloadCost, SstoreClearsScheduleRefundEIP3529,
+\* RefundQuotientEIP3529
+t_FIX       == [exec |-> 59, cold |-> 2100, noop |-> 100, set |-> 20000, reset |-> 2900, clear |-> 4800, quot |-> 5]
 \* deviations of the current tree = the C19 entries of known_findings.json that are not `fixed`
 \* (tools/fam_evmtx.py passes them to the harness, which writes them into the header): the strict lane
 \* follows the code as it is
